@@ -78,6 +78,8 @@ impl Tgt {
 #[derive(Clone, Debug, PartialEq, Eq, Hash, Serialize, Deserialize)]
 pub enum TxSpec {
     Deploy { pk: u8, code: Vec<u8>, len: u64 },
+    /// a deployment inscribed under a given inscription id (the same id can then be deployed again on another branch)
+    DeployAs { pk: u8, code: Vec<u8>, len: u64, insc: String },
     Call { pk: u8, tgt: Tgt, data: Vec<u8>, len: u64 },
     /// the same, addressed by the inscription id the target was deployed with
     CallByInsc { pk: u8, insc: String, data: Vec<u8>, len: u64 },
@@ -741,6 +743,10 @@ pub fn tx_call_with(tx: &TxSpec, idx: u64, ts: u64, hash: &str, insc: &str, txid
         TxSpec::Deploy { pk, code, len } => Call {
             method: "brc20_deploy".into(),
             params: json!({"from_pkscript": pkscript(*pk), "data": hx(code), "timestamp": ts, "hash": hash, "tx_idx": idx, "inscription_id": insc, "inscription_byte_len": len, "op_return_tx_id": txid}),
+        },
+        TxSpec::DeployAs { pk, code, len, insc: fixed } => Call {
+            method: "brc20_deploy".into(),
+            params: json!({"from_pkscript": pkscript(*pk), "data": hx(code), "timestamp": ts, "hash": hash, "tx_idx": idx, "inscription_id": fixed, "inscription_byte_len": len, "op_return_tx_id": txid}),
         },
         TxSpec::Call { pk, tgt, data, len } => Call {
             method: "brc20_call".into(),
